@@ -13,8 +13,14 @@ real simulator on the virtual loop:
                 through the simulator's queue (CBlock -> event -> Input -> queue -> CBlock),
                 they are *not* synchronous event recursion (that is C11's business and is not
                 generated: no SBlock ever sends an event towards a block that is handling one),
-  * 'acyclic' : feed-forward networks with reconvergent fan-out, also with forward event edges,
-followed by a history of 1-12 bursts of external 'put' events to the sources.
+  * 'acyclic' : feed-forward networks with reconvergent fan-out (random, 'fan': terminals fed
+                by a source directly and through a chain, 'ladder': a block tapping every other
+                block of a chain, i.e. 3-5 paths of unequal length into one block while the
+                total stays below 2 per block), also with forward event edges,
+followed by a history of 1-12 bursts of external 'put' events to the sources; a burst is 1-16
+puts sent in one instant (no yield to the event loop): single toggles, several sources, and long
+bursts of 4-16 toggles of one or a few sources (also ending in the initial value), most often
+on small acyclic networks where the limit (a multiple of the number of blocks) is low.
 hash_salt (iteration order of the simulator's set of blocks to evaluate) is part of the plan.
 
 Oracle (reference: checks/cyclib.py, written from the documentation):
@@ -29,6 +35,11 @@ Oracle (reference: checks/cyclib.py, written from the documentation):
   (c) instability reported for an acyclic network (event edges included) whose path-count
       bound for that burst (sum over blocks of the number of paths from the changed sources;
       +1 per block in the start-up burst) is <= MARGIN * number-of-blocks => 'false-instability'.
+      A source changed k times in one instant counts as ONE changed source: the simulator task
+      cannot run between the puts, it sees the final values only and settles the network in
+      one round per idle moment (its queue may hold the block k times, the set of blocks to
+      evaluate holds every block once), so the work is that of one change. The demand is made
+      only under this bound;
       The documentation says a circuit is deemed unstable "when the change propagates through
       the whole circuit several times"; MARGIN = 2 is the smallest reading of "several", so a
       limit with another constant (the code uses 3) can never be a false alarm here;
@@ -103,7 +114,7 @@ RULE = ("one run = one random network of 1-9 (thorough: -11) Not/Xor/And/identit
         "on_output->Input 'put' events (plain / negating filter / two-Input chain), 32% acyclic "
         "with reconvergent fan-out and forward event edges; creation order shuffled, hash_salt "
         "drawn per run; then 1-12 bursts of external puts (single toggle, several sources, "
-        "several changes of one source, no change); run indices below 1500 use 1-3 blocks so the "
+        "several changes of one source, no change, long bursts of 4-16 toggles in one instant); run indices below 1500 use 1-3 blocks so the "
         "small shapes are covered densely; non-trivial = the network has a cycle (direct or "
         "through events) or at least one burst after start-up evaluated a block; distinct = hash "
         "of (kind, block ops with fan-in in creation order, number of event inputs, per burst: "
@@ -115,7 +126,8 @@ REACH_EXPECTED = [
     'acyclic_burst_within_bound', 'acyclic_glitch_within_bound', 'acyclic_evals_above_nblocks',
     'acyclic_event_edge_burst', 'acyclic_over_bound', 'multi_change_burst',
     'stable_then_unstable_history', 'const_input_idle', 'const_only_block_idle',
-    'const_only_block_in_cycle',
+    'const_only_block_in_cycle', 'long_burst_within_bound', 'long_burst_small_net',
+    'long_burst_back_to_initial', 'acyclic_block_evaluated_4x_within_bound',
 ]
 ASSUMPTIONS = [
     "boolean values only; block semantics taken from the documentation: Not, And (all), Xor "
@@ -311,10 +323,18 @@ def execute(plan, trace=False):
                     if bound[0] <= MARGIN * nall:
                         if not initial:
                             run.fired('reach:acyclic_burst_within_bound')
+                            if st.get('long'):
+                                run.fired('reach:long_burst_within_bound')
+                                if nall <= 4:
+                                    run.fired('reach:long_burst_small_net')
+                                if st.get('back'):
+                                    run.fired('reach:long_burst_back_to_initial')
                             if net.uses_event_edge and any(per[e['frm']] for e in net.evin):
                                 run.fired('reach:acyclic_event_edge_burst')
                         if max(per.values()) > 1:
                             run.fired('reach:acyclic_glitch_within_bound')
+                        if max(per.values()) >= 4:
+                            run.fired('reach:acyclic_block_evaluated_4x_within_bound')
                         if evals > nall:
                             run.fired('reach:acyclic_evals_above_nblocks')
                     else:
@@ -387,6 +407,7 @@ def execute(plan, trace=False):
                 if not alive:
                     break
                 changes = collections.Counter()
+                before_burst = src_values()
                 for name, val in op['puts']:
                     src = blk[name]
                     before = src.output
@@ -398,6 +419,9 @@ def execute(plan, trace=False):
                         changes[name] += 1
                 if sum(changes.values()) > 1:
                     run.fired('reach:multi_change_burst')
+                st['long'] = sum(changes.values()) >= 4
+                st['back'] = st['long'] and not any(
+                    blk[name].output != v for name, v in before_burst.items())
                 await settle(simtask)
                 alive = checkpoint(f"burst{n}", simtask, False, dict(changes))
             try:
